@@ -298,7 +298,7 @@ def gen_C04(rng, tier):
         pc['maxtasksperchild'] = None
         # (the callback returns well within the grace period: a result handler that is kept away from the pipe
         # for longer than that cannot tell a published result from a lost one, which is what the period is for)
-        pc['lost_worker_timeout'] = rng.choice([2.0, 3.0])
+        pc['lost_worker_timeout'] = rng.choice([3.0, 5.0])
         case['cb_delay'] = rng.choice([0.4, 1.2])
         st0 = {'i': 0}
 
